@@ -8,6 +8,8 @@ import (
 	"os"
 	"os/exec"
 	"path/filepath"
+	"sort"
+	"strings"
 	"sync"
 	"time"
 
@@ -138,6 +140,9 @@ func runRuntime(c *rtCheck) {
 		run.Finish()
 	}
 	total := c.Specs[ti]
+	if os.Getenv("VERIF_STREAM_ONLY") != "" && c.StreamSpecs[ti] > 0 {
+		total = 0 // debugging aid: only the streaming batch (the floor will call the run inconclusive)
+	}
 	per := 32
 	idx := 0
 	for bi := 0; idx < total; bi++ {
@@ -184,7 +189,11 @@ func runRuntime(c *rtCheck) {
 			"streaming payloads of the runtime batch stay clear of the listed C01 findings (alias / union in a streaming payload, string lengths in non-user message types, two routes)")
 		var specs []*spec.Spec
 		for i := 0; i < ns; i++ {
-			s := gen.Generate(run.Rand(7, uint64(i)), fmt.Sprintf("s%d", i), gen.Opts{Profile: "stream", Runtime: true, Streams: true, StreamViews: true, Thorough: run.Thorough()})
+			o := gen.Opts{Profile: "stream", Runtime: true, Streams: true, StreamViews: true, Thorough: run.Thorough()}
+			if i%4 == 1 {
+				o.StreamForce = "views" // every fourth design streams a multi-view result type from the server
+			}
+			s := gen.Generate(run.Rand(7, uint64(i)), fmt.Sprintf("s%d", i), o)
 			s.AddFeature("profile-stream")
 			specs = append(specs, s)
 		}
@@ -217,6 +226,18 @@ func runRuntime(c *rtCheck) {
 			run.Infra("streaming: %d of %d exchanges hit the watchdog (both ends wait for each other: the stream protocol is broken or the machine is stalled)", hung, total)
 		} else if total == 0 {
 			run.Infra("streaming: no streaming exchange was driven")
+		}
+		// a streaming method most of whose exchanges hung was not decided at all (a systematic deadlock, e.g. an
+		// end-of-stream marker that is never sent, shows up exactly like this): exit 2, never a pass
+		var hungMethods []string
+		for k, hs := range streamHangs {
+			if hs[0] >= 4 && hs[1]*2 > hs[0] {
+				hungMethods = append(hungMethods, fmt.Sprintf("%s (%d of %d)", k, hs[1], hs[0]))
+			}
+		}
+		if len(hungMethods) > 0 {
+			sort.Strings(hungMethods)
+			run.Infra("streaming: every exchange of %d streaming method(s) deadlocked until the watchdog: %s", len(hungMethods), strings.Join(hungMethods, "; "))
 		}
 	}
 	run.Floor(c.Floor[ti])
@@ -404,6 +425,9 @@ func shape(ex *rt.Exchange) string {
 	return string(b)
 }
 
+// streamHangs counts, per streaming method, the exchanges driven and those the watchdog ended.
+var streamHangs = map[string][2]int{}
+
 func countTaps(run *vc.Run, ex *rt.Exchange) {
 	if ex.ClientIn != nil || ex.Case.NoPay {
 		run.Count("tap_client_in", 1)
@@ -423,6 +447,13 @@ func countTaps(run *vc.Run, ex *rt.Exchange) {
 		run.Count("tap_client_out", 1)
 	}
 	if r := ex.Stream; r != nil {
+		k := ex.Design + " " + ex.Case.Svc + "." + ex.Case.Method
+		hs := streamHangs[k]
+		hs[0]++
+		if r.Watchdog != "" {
+			hs[1]++
+		}
+		streamHangs[k] = hs
 		run.Count("stream_exchanges", 1)
 		run.Count("tap_stream_client_send", len(r.ClientSent)+r.RawSent)
 		run.Count("tap_stream_stub_recv", len(r.StubRecv))
